@@ -5,9 +5,12 @@ import (
 	"context"
 	"encoding/json"
 	"fmt"
+	"os"
 	"reflect"
 	"strconv"
 	"strings"
+	"verif/clih"
+	"verif/engine/enum"
 
 	"ariga.io/atlas/sql/migrate"
 	"ariga.io/atlas/sql/mysql"
@@ -160,6 +163,47 @@ func readBack(d *dialectT, format string, files []migrate.File) ([]string, error
 }
 
 func Eval(c Case) (problems []string, skipped string, cmds []string) {
+	return evalWith(c, false)
+}
+
+// importCLI writes the formatted files into a directory, runs the real `atlas migrate import` on it and
+// returns the files of the imported (atlas format) directory.
+func importCLI(format string, files []migrate.File) ([]migrate.File, string) {
+	wk, err := clih.NewWork()
+	if err != nil {
+		return nil, "harness: " + err.Error()
+	}
+	defer wk.Close()
+	os.MkdirAll(wk.Path("src"), 0o755)
+	for _, f := range files {
+		if err := os.WriteFile(wk.Path("src", f.Name()), f.Bytes(), 0o644); err != nil {
+			return nil, "harness: " + err.Error()
+		}
+	}
+	res := wk.Run(nil, "migrate", "import", "--from", "file://"+wk.Path("src")+"?format="+format, "--to", "file://"+wk.Path("dst"))
+	if res.Exit != 0 {
+		return nil, "`migrate import` failed: " + res.String()
+	}
+	dst, err := migrate.NewLocalDir(wk.Path("dst"))
+	if err != nil {
+		return nil, "harness: " + err.Error()
+	}
+	if err := migrate.Validate(dst); err != nil {
+		return nil, "imported directory does not validate: " + err.Error()
+	}
+	fs, err := dst.Files()
+	if err != nil {
+		return nil, "imported directory cannot be listed: " + err.Error()
+	}
+	// detach from the work dir, which is removed on return.
+	out := make([]migrate.File, len(fs))
+	for i, f := range fs {
+		out[i] = migrate.NewLocalFile(f.Name(), f.Bytes())
+	}
+	return out, ""
+}
+
+func evalWith(c Case, viaImport bool) (problems []string, skipped string, cmds []string) {
 	bad := func(f string, a ...any) { problems = append(problems, fmt.Sprintf(f, a...)) }
 	d := dialects[c.Dialect]
 	defer func() {
@@ -220,7 +264,20 @@ func Eval(c Case) (problems []string, skipped string, cmds []string) {
 			return
 		}
 	}
-	got, err := readBack(d, c.Format, files)
+	readFormat := c.Format
+	if viaImport {
+		imported, msg := importCLI(c.Format, files)
+		if msg != "" {
+			bad("%s", msg)
+			return
+		}
+		if len(imported) != 1 {
+			bad("`migrate import` wrote %d files for one plan", len(imported))
+			return
+		}
+		files, readFormat = imported, "atlas"
+	}
+	got, err := readBack(d, readFormat, files)
 	if err != nil {
 		bad("reading the file back fails: %v", err)
 		return
@@ -331,10 +388,10 @@ func ownQuote(c Case) bool {
 }
 
 func Run(r *report.Run) {
-	r.Rule = "plans of the real MySQL/PostgreSQL/SQLite planners over a two-table schema in which one slot (thorough: two slots) out of 11 (table/column/index/check/foreign-key name, table/column/index comment, string default, enum value, check string literal) holds each of 20 adversarial strings (quotes, semicolon, comment markers, backslash, newline, dollar tags, BEGIN/END, DELIMITER and atlas:delimiter lines) x change kind {create, drop, alter, alter back} x 6 formatters (the atlas one also through Planner.WriteCheckpoint) x indent {none, two spaces} x plan delimiter (atlas format: default, \\nGO, //, \\n-- end); the file is read back with the matching reader and the dialect's scanner and must yield exactly Plan.Changes[].Cmd; every change comment carries a marker that must not reach a statement; non-trivial = case with >=1 adversarial slot; distinct = (dialect, slots, kind, format, indent, delimiter)"
+	r.Rule = "plans of the real MySQL/PostgreSQL/SQLite planners over a two-table schema in which one slot (thorough: two slots) out of 11 (table/column/index/check/foreign-key name, table/column/index comment, string default, enum value, check string literal) holds each of 20 adversarial strings (quotes, semicolon, comment markers, backslash, newline, dollar tags, BEGIN/END, DELIMITER and atlas:delimiter lines) x change kind {create, drop, alter, alter back} x 6 formatters (the atlas one also through Planner.WriteCheckpoint) x indent {none, two spaces} x plan delimiter (atlas format: default, \\nGO, //, \\n-- end); the file is read back with the matching reader and the dialect's scanner and must yield exactly Plan.Changes[].Cmd; every change comment carries a marker that must not reach a statement; import slice: the directory written by each third-party formatter is imported by the real `atlas migrate import` and the resulting atlas file, read with the dialect's scanner, must again yield exactly the planned statements; non-trivial = case with >=1 adversarial slot; distinct = (dialect, slots, kind, format, indent, delimiter)"
 	r.Assumptions = []string{
 		"statement text is compared after trimming one trailing ';'",
-		"third-party import through the CLI is covered by the CLI-driven slice",
+		"the import slice uses create plans with at most one adversarial slot (quick: 4 slots; thorough: all)",
 	}
 	cs := cases(r.Tier)
 	skipped := 0
@@ -362,6 +419,70 @@ func Run(r *report.Run) {
 		}
 	}
 	r.Set("cases_not_planned", skipped)
+	// import slice: the formatted directory goes through the real `atlas migrate import` first.
+	defer clih.Cleanup()
+	ics := importCases(r.Tier)
+	type ires struct {
+		problems []string
+		skip     string
+	}
+	out := make([]ires, len(ics))
+	enum.Parallel(len(ics), func(i, _ int) {
+		p, s, _ := evalWith(ics[i], true)
+		out[i] = ires{p, s}
+	})
+	for i, c := range ics {
+		r.Case(fmt.Sprintf("import|%v", c), len(c.Values) > 0 && out[i].skip == "")
+		if out[i].skip != "" || len(out[i].problems) == 0 {
+			continue
+		}
+		r.Violate(classifyImport(c, out[i].problems), fmt.Sprintf("import %s %v %s %s: %s", c.Dialect, c.Values, c.Kind, c.Format, strings.Join(out[i].problems, " | ")), map[string]any{"import": c})
+	}
+	r.Set("import_cases", len(ics))
+}
+
+// importCases: create-plans with at most one adversarial slot, written by each third-party formatter.
+func importCases(tier string) []Case {
+	slots := []string{"table", "default", "column_comment", "check_literal"}
+	if tier == "thorough" {
+		slots = Slots
+	}
+	var cs []Case
+	for _, dn := range []string{"mysql", "postgres", "sqlite"} {
+		d := dialects[dn]
+		vals := []map[string]string{{}}
+		for _, slot := range slots {
+			if (!d.comment && strings.HasSuffix(slot, "_comment")) || (!d.enum && slot == "enum_value") || (d.name != "sqlite" && (slot == "default_dq" || slot == "default_raw")) {
+				continue
+			}
+			for _, sg := range Sigma {
+				vals = append(vals, map[string]string{slot: "a" + sg + "b"})
+			}
+		}
+		for _, v := range vals {
+			for _, f := range formats {
+				if strings.HasPrefix(f.name, "atlas") {
+					continue
+				}
+				cs = append(cs, Case{dn, v, "create", f.name, "", ""})
+			}
+		}
+	}
+	return cs
+}
+
+// classifyImport: the importer reads the source with the same readers (same listed findings) and,
+// in addition, always with the generic scanner ("not driver aware").
+func classifyImport(c Case, problems []string) string {
+	if k := classify(c, problems); k != "" {
+		return k
+	}
+	for slot, v := range c.Values {
+		if c.Dialect == "mysql" && strings.HasSuffix(slot, "_comment") && strings.Contains(v, "\"") {
+			return "mysql-backslash-escaped-comment-read-by-generic-scanner"
+		}
+	}
+	return ""
 }
 
 // classify recognises the listed findings by a predicate on the case (which slot holds what, which format).
